@@ -140,8 +140,8 @@ class C12(Check):
     lean_targets = ["drv_c12"]
     driver = "drv_c12"
     theorems = ["Pox.C12.port_guards", "Pox.C12.flood_excludes_ingress", "Pox.C12.counters_exact", "Pox.C12.actions_spec",
-                "Pox.C12.checksums_ok", "Pox.C12.rx_spec", "Pox.C12.rx_obj_spec", "Pox.C12.port_mod_spec",
-                "Pox.C12.enqueue_d7_defect", "Pox.C12.table_recount_d8_defect", "Pox.C12.vlan_pcp_c121_defect"]
+                "Pox.C12.checksums_ok", "Pox.C12.rx_spec", "Pox.C12.rx_obj_spec", "Pox.C12.outputs_only", "Pox.C12.port_mod_spec",
+                "Pox.C12.enqueue_d7_defect", "Pox.C12.table_recount_d8_defect", "Pox.C12.vlan_pcp_c121_defect", "Pox.C12.strip_vlan_c122_defect"]
     _SW = "pox/datapaths/switch.py"
     anchors = [("pox/datapaths/switch.py", "SoftwareSwitchBase." + n) for n in (
         "_rx_port_mod", "rx_packet", "_lookup_packet", "_set_port_config_bit", "_output_packet", "_process_actions_for_packet",
@@ -721,6 +721,13 @@ class C12(Check):
             cases.append({"ops": self.portmods([None, None, PC_NO_RECV]) + [{"op": "setconfig", "flags": 0, "miss": 30}, {"op": "flow", "in_port": 1, "acts": [{"a": "set_vlan_vid", "v": 9}, out1(P_FLOOD)]},
                                   {"op": "rx", "port": 1, "data": fr, "nopd": True}, {"op": "rx", "port": 2, "data": fr, "nopd": True}, {"op": "rx", "port": 3, "data": fr, "nopd": True},
                                   {"op": "rx", "port": 7, "data": fr, "nopd": True}], "wf": True, "canon": True})
+        # (i) C12-2: a frame that ends inside the 802.1Q tag (the vlan object does not parse) against strip_vlan / set_vlan_*
+        for tail in ("", "00", "0005", "000508"):
+            runt = "66778899aabb0011223344558100" + tail
+            for acts in ([{"a": "strip_vlan"}, out1(2)], [out1(2), {"a": "set_vlan_vid", "v": 5}, out1(3), {"a": "strip_vlan"}, out1(P_FLOOD)]):
+                can = len(acts) == 2          # what set_vlan_* should do to half a tag is nobody's specification: model-vs-code only
+                cases.append({"ops": [{"op": "pktout", "in_port": 1, "data": runt, "acts": acts}], "canon": can})
+                cases.append({"ops": [{"op": "flow", "in_port": None, "acts": acts}, {"op": "rx", "port": 1, "data": runt}], "canon": can})
         # (f) the witnesses of Properties/C12.lean (`enqueue_d7_defect`, `table_recount_d8_defect`, `vlan_pcp_c121_defect`) replayed on
         #     the implementation: four ports, port 2 NO_FLOOD, port 3 NO_FWD, one entry for in_port 3, a 16-byte frame
         small = "66778899aabb00112233445588b50102"
@@ -731,6 +738,8 @@ class C12(Check):
                                 ("table_recount_d8_defect", 3, [{"a": "output", "port": P_TABLE, "max_len": 0}]),
                                 ("vlan_pcp_c121_defect", 1, [{"a": "set_vlan_pcp", "v": 9}, {"a": "output", "port": 4, "max_len": 0}])):
             cases.append({"nports": 4, "witness": name, "ops": setup + [{"op": "pktout", "in_port": ing, "data": small, "acts": acts}], "wf": True, "canon": True})
+        cases.append({"nports": 4, "witness": "strip_vlan_c122_defect", "canon": True,
+                      "ops": setup + [{"op": "pktout", "in_port": 1, "data": "66778899aabb00112233445581000005", "acts": [{"a": "strip_vlan"}, {"a": "output", "port": 4, "max_len": 0}]}]})
         return cases
 
     def generate(self, rng, tier):
